@@ -5,6 +5,7 @@ import (
 	"strings"
 
 	"github.com/ipfs/go-unixfsnode/file"
+	"github.com/ipfs/go-unixfsnode/internal/verifmodel"
 	"github.com/ipfs/go-unixfsnode/internal/verifrt"
 	"github.com/ipld/go-ipld-prime"
 	"github.com/ipld/go-ipld-prime/datamodel"
@@ -514,33 +515,72 @@ func VerifHamtConcurrentReadersJoint() {
 // VerifFileConcurrentReadersJoint (C17): two goroutines each obtain their own reader
 // from one shared file node with two interior levels and read the whole file.
 func VerifFileConcurrentReadersJoint() {
-	L := 3 + verifrt.Choose(3)
-	bf := buildFileFor(2, 1, L)
-	defer bf.restore()
-	root, err := bf.ls.Load(ipld.LinkContext{}, bf.lnk, protoFor(bf.lnk))
+	var ls *ipld.LinkSystem
+	var lnk datamodel.Link
+	var content []byte
+	shape := verifrt.Choose(3)
+	switch shape {
+	case 0: // written by the builder: two interior levels, BlockSizes everywhere
+		L := 3 + verifrt.Choose(3)
+		bf := buildFileFor(2, 1, L)
+		defer bf.restore()
+		ls, lnk, content = bf.ls, bf.lnk, bf.content
+	default:
+		// a file as other writers may leave it: no BlockSizes (shape 1) or with them
+		// (shape 2), over dag-pb leaves with inline bytes: the reader has to open such
+		// children to learn their sizes
+		st := verifmodel.NewStore()
+		ls = st.LinkSystem()
+		content = []byte{'x', 'y', 'z'}
+		var links []pbLinkSpec
+		for i := range content {
+			leaf := pbBytes(pbField(nil, 1, 2), 2, content[i:i+1])
+			leaf = pbField(leaf, 3, 1)
+			l := storeNode(ls, mkPBNode(true, leaf, nil))
+			links = append(links, pbLinkSpec{hash: l, hasName: true, name: "", hasTsize: true, tsize: 8})
+		}
+		d := pbField(pbField(nil, 1, 2), 3, uint64(len(content)))
+		if shape == 2 {
+			for range content {
+				d = pbField(d, 4, 1)
+			}
+		} else {
+			verifrt.Reach("no-blocksizes")
+		}
+		lnk = storeNode(ls, mkPBNode(true, d, links))
+	}
+	L := len(content)
+	root, err := ls.Load(ipld.LinkContext{}, lnk, protoFor(lnk))
 	verifrt.Assert(err == nil, "harness:root-loads")
-	node, err := file.NewUnixFSFile(nil, root, bf.ls)
+	node, err := file.NewUnixFSFile(nil, root, ls)
 	verifrt.Assert(err == nil, "harness:open")
-	op := func() int {
+	op := func(from int) int {
 		rs, err := node.AsLargeBytes()
 		if err != nil {
 			return -1
 		}
-		buf := make([]byte, L)
+		if from > 0 {
+			if _, err := rs.Seek(int64(from), io.SeekStart); err != nil {
+				return -3
+			}
+		}
+		buf := make([]byte, L-from)
 		n, _ := io.ReadFull(rs, buf)
 		end, _ := rs.Seek(0, io.SeekEnd)
-		if !verifrt.BytesEq(buf[:n], bf.content[:n]) {
+		if !verifrt.BytesEq(buf[:n], content[from:from+n]) {
 			return -2
 		}
 		return n*100 + int(end)
 	}
+	// each goroutine reads from its own start offset to the end
+	fromA, fromB := verifrt.Choose(2), verifrt.Choose(2)
 	verifrt.TraceSharedDeep(node, "f")
 	verifrt.TraceMark("A")
-	resA := op()
+	resA := op(fromA)
 	verifrt.TraceMark("B")
-	resB := op()
+	resB := op(fromB)
 	raw := verifrt.TraceTake()
-	verifrt.Assert(resA == L*100+L && resB == resA, "results:same-as-alone")
+	verifrt.Assert(resA == (L-fromA)*100+L && resB == (L-fromB)*100+L, "results:same-as-alone")
 	raceFreeJoint(raw, "race")
 	verifrt.Reach("end")
 }
